@@ -118,7 +118,7 @@ CHECKS = {
             "An accepted mutated document must answer the whole read battery consistently at current and historical heads, accept edits and a merge, and save to bytes that load to an equal document.",
             "The property is broadly violated on the pinned tree (load does not validate op sets semantically): four known findings keyed on the kind of misbehaviour suppress most of the search space; the replay tier keeps one strict reproduction of each. See DESIGN.md section 4.", "3/C16"),
     "C17": ("fault_enumeration", "length, count and parameter fields of generated valid encodings set to extreme values (LEB128 maxima, run lengths near 2^31..2^64, bloom parameters), counting allocator + CPU clock in a sandboxed worker",
-            "Per input of n bytes: one allocation request and the live total stay below 16 MiB + 64 KiB*n, CPU below 2 s (10 s hard limit in the worker); a refusal aborts the worker deterministically and names the requesting library function.",
+            "Per input of n bytes: one allocation request and the live total stay below 16 MiB + 64 KiB*n, CPU below 2 s (4 s hard limit in the worker); a refusal aborts the worker deterministically and names the requesting library function.",
             "Budget is a generous linear bound; known run-length amplification sites are excluded by the requesting function.", "3/C17"),
     "C39": ("exploration", "proptest: invalid UTF-8 written over every string site (keys, values, mark names, messages, actor-independent strings) of generated documents, changes, bundles and sync messages, checksums recomputed",
             "Every string handed out by a document / change that was accepted (keys, text, values, mark names and values, spans, messages, hydrate) must be valid UTF-8; the input is rejected or repaired.",
